@@ -74,7 +74,7 @@ def _make_buffer(mod, method, present, inactive, since, v0, v1):
       ib = mod.IntervalBuffer(interval)
       vals = [v0 + i, v1] if (i % 2 == 0) else [v1 - i]
       if method not in EXACT:
-        vals = [3 + i, 8] if (i % 2 == 0) else [5 - i]
+        vals = [[3, 8, 1, 9], [4], [7, 2, 6], [5, 5], [9, 1, 4, 4, 7], [2, 10]][i]     # lengths 1..5: percentile ranks between and on elements
       ib.values = list(vals)
       ib.inactive_since = (since[i] if inactive[i] else None)
       buf.interval_buffers[interval] = ib
@@ -346,13 +346,19 @@ def _pattern(pi, name, cache_kind):
     rule = real_rules.AggregationRule(pattern, 'out.<f>' if '<' in pattern else 'out.all', 'sum', 10)
     first = rule.get_aggregate_metric(name)
     second = rule.get_aggregate_metric(name)
+    # a second rule with the SAME input pattern and another output: caches must not leak between rules
+    other = real_rules.AggregationRule(pattern, 'alt.<f>' if '<' in pattern else 'alt.all', 'count', 10)
+    other_res = other.get_aggregate_metric(name)
+    again = rule.get_aggregate_metric(name)
   finally:
     sset('CACHE_METRIC_NAMES_MAX', 0)
     sset('CACHE_METRIC_NAMES_TTL', 0)
   want = _ref_match(pattern, name)
   cover('matched' if want is not None else 'missed')
-  if not (first == second):
+  if not (first == second) or not (first == again):
     raise AssertionError('name cache changes the answer')
+  if (first is None) != (other_res is None) or (first is not None and not (('alt' + first[3:]) == other_res)):
+    raise AssertionError('a rule answered with another rule\'s aggregate name: %r / %r' % (first, other_res))
   if want is None:
     if first is not None:
       raise AssertionError('pattern %r matched %r, which it does not match as a whole name' % (pattern, name))
